@@ -1,1 +1,374 @@
-/-! C05 — property theorems (none yet). -/
+import Req.Lemmas.C05Varint
+import Req.Lemmas.C05H2
+import Req.Lemmas.C05H3
+import Req.Lemmas.C05Fields
+import Req.Lemmas.C05Meta
+/-!
+C05 — HTTP/2 and HTTP/3 codecs agree with their upstream reference codecs.
+
+The theorems are about the Lean models `Req.H2.Frame` (internal/http2/frame.go),
+`Req.H3.Varint` (internal/quic-go/quicvarint), `Req.H3.Frame` (internal/http3/frames.go) and
+`Req.H3.Fields` (internal/http3/headers.go); the correspondence lanes of C05 tie each model
+function to the real code AND to the upstream reference (x/net/http2, quic-go) on every run.
+Proofs live in `Req/Lemmas/C05*.lean`; this file is the list of statements.
+
+* QUIC varints: `varint_roundtrip`, `varint_len`, `varint_len_append`, `parse_nonminimal_ok`,
+  `parse_sound`
+* HTTP/2 frame header: `frameHeader_roundtrip`, `frameHeader_reserved_bit`
+* per frame type, wire level `ReadFrame (Write… args) = frame args`:
+  `data_parse_write`, `headers_parse_write`, `priority_parse_write`, `rstStream_parse_write`,
+  `settings_parse_write`, `settingsAck_parse_write`, `pushPromise_parse_write`, `ping_parse_write`,
+  `goAway_parse_write`, `windowUpdate_parse_write`, `continuation_parse_write`,
+  `rawFrame_parse_write`
+* error classes of the typed parsers: `parse_error_classified`, `stream_zero_is_connection_error`
+* frame order: `order_automaton`
+* HTTP/3 frames: `h3_frameHeader_roundtrip`, `h3_reserved_rejected`, `h3_unknown_skipped`,
+  `h3settings_roundtrip`, `h3settings_payload_roundtrip`, `h3settings_dup_rejected`
+* received HTTP/3 field sections against RFC 9114 §4.2/§4.3: `h3_fields_accept_iff`,
+  `h3_trailers_accept_iff`
+* merged HTTP/2 header lists: `meta_fields_wellformed`
+-/
+namespace Req.Props.C05
+open Req.Proto
+
+deriving instance DecidableEq for Except   -- for the `decide`d examples only
+
+/-! ## QUIC variable-length integers -/
+section varint
+open Req.H3.Varint
+
+/-- **varint_roundtrip**: every value below 2^62 is encoded by `Append`, and `Parse` gives the
+value back and leaves exactly the bytes that followed. -/
+theorem varint_roundtrip (n : Nat) (h : n < 2 ^ 62) (rest : Bytes) :
+    ∃ bs, append n = some bs ∧ parse (bs ++ rest) = .ok (n, rest) :=
+  Req.Lemmas.C05.Varint.varint_roundtrip n h rest
+
+example : append 16384 = some [128, 0, 64, 0] ∧ parse ([128, 0, 64, 0] ++ [7]) = .ok (16384, [7]) := by
+  decide
+
+/-- **varint_len**: `Len` is 1, 2, 4, 8 with exactly the boundaries 63 / 16383 / 2^30-1 / 2^62-1,
+and panics (`none`) from 2^62 on. -/
+theorem varint_len (n : Nat) :
+    (len n = some 1 ↔ n ≤ 63) ∧
+    (len n = some 2 ↔ 64 ≤ n ∧ n ≤ 16383) ∧
+    (len n = some 4 ↔ 16384 ≤ n ∧ n ≤ 1073741823) ∧
+    (len n = some 8 ↔ 1073741824 ≤ n ∧ n ≤ 4611686018427387903) ∧
+    (len n = none ↔ 4611686018427387904 ≤ n) :=
+  Req.Lemmas.C05.Varint.varint_len n
+
+/-- `Len` is the length of what `Append` writes (what `settingsFrame.Append` relies on). -/
+theorem varint_len_append (n : Nat) (bs : Bytes) (h : append n = some bs) :
+    len n = some bs.length :=
+  (Req.Lemmas.C05.Varint.append_length n bs h).1
+
+example : len 63 = some 1 ∧ len 64 = some 2 ∧ len 16383 = some 2 ∧ len 16384 = some 4
+    ∧ len 1073741823 = some 4 ∧ len 1073741824 = some 8 ∧ len 4611686018427387903 = some 8
+    ∧ len 4611686018427387904 = none := by decide
+
+/-- **parse_nonminimal_ok**: every encoding `AppendWithLen` can produce — minimal or padded to 2, 4
+or 8 bytes — is accepted by `Parse` with the same value (QUIC does not require minimal encodings). -/
+theorem parse_nonminimal_ok (n l : Nat) (rest : Bytes)
+    (hl : l = 1 ∨ l = 2 ∨ l = 4 ∨ l = 8) (hn : n < capacity l) :
+    ∃ bs, appendWithLen n l = some bs ∧ bs.length = l ∧ parse (bs ++ rest) = .ok (n, rest) :=
+  Req.Lemmas.C05.Varint.parse_nonminimal_ok n l rest hl hn
+
+example : appendWithLen 5 4 = some [128, 0, 0, 5] ∧ parse [128, 0, 0, 5] = .ok (5, []) := by decide
+
+/-- **parse_sound**: whatever `Parse` accepts consumed 1, 2, 4 or 8 bytes and yields a value below
+the capacity of that length (hence below 2^62). -/
+theorem parse_sound (b rest : Bytes) (v : Nat) (h : parse b = .ok (v, rest)) :
+    ∃ pre, b = pre ++ rest ∧ (pre.length = 1 ∨ pre.length = 2 ∨ pre.length = 4 ∨ pre.length = 8) ∧
+      v < capacity pre.length :=
+  Req.Lemmas.C05.Varint.parse_sound b rest v h
+
+end varint
+
+/-! ## HTTP/2 frames -/
+section h2
+open Req.H2.Frame
+
+/-- **frameHeader_roundtrip**: the 9 bytes `startWrite`/`endWrite` produce for (length, type, flags,
+stream id) are read back by `readFrameHeader` as exactly that header. -/
+theorem frameHeader_roundtrip (l t f s : Nat) (rest : Bytes)
+    (hl : l < two24) (ht : t < 256) (hf : f < 256) (hs : s < two31) :
+    parseHeader (headerBytes l t f s ++ rest) = some (⟨l, t, f, s⟩, rest) :=
+  Req.Lemmas.C05.H2.frameHeader_roundtrip l t f s rest hl ht hf hs
+
+example : parseHeader (headerBytes 5 1 4 3 ++ [9]) = some (⟨5, 1, 4, 3⟩, [9]) := by decide
+
+/-- the reserved bit of the stream id is ignored on read: a stream id with the top bit set is read
+as the id without it. -/
+theorem frameHeader_reserved_bit (l t f s : Nat) (rest : Bytes)
+    (hl : l < two24) (ht : t < 256) (hf : f < 256) (hs : s < two31) :
+    parseHeader (headerBytes l t f (s + two31) ++ rest) = some (⟨l, t, f, s⟩, rest) :=
+  Req.Lemmas.C05.H2.frameHeader_reserved_bit l t f s rest hl ht hf hs
+
+/-- **data_parse_write** (`WriteData` / `WriteDataPadded` → `ReadFrame`). -/
+theorem data_parse_write (sid : Nat) (endStream : Bool) (data : Bytes) (pad : Option Bytes)
+    (h : WfData sid data pad) :
+    ∃ out, writeData false sid endStream data pad = .ok out ∧
+      ∀ (r : Reader) (rest : Bytes), Ready r (out.length - 9) 0 →
+        readFrame r (out ++ rest) =
+          (.ok (.data ⟨out.length - 9, tData, b2n endStream flagEndStream + b2n pad.isSome flagPadded, sid⟩
+            data), r, rest) :=
+  Req.Lemmas.C05.H2.data_parse_write sid endStream data pad h
+
+example : WfData 1 [104, 105] (some [0, 0]) := by decide
+example : readFrame { maxReadSize := 16384 } [0, 0, 5, 0, 9, 0, 0, 0, 1, 2, 104, 105, 0, 0] =
+    (.ok (.data ⟨5, 0, 9, 1⟩ [104, 105]), { maxReadSize := 16384 }, []) := by decide
+
+/-- **headers_parse_write** (`WriteHeaders` → `ReadFrame`): flags, priority and fragment come back;
+the reader is left inside the header block of the stream unless END_HEADERS was set. -/
+theorem headers_parse_write (p : HeadersParam) (h : WfHeaders p) :
+    ∃ out, writeHeaders false p = .ok out ∧
+      ∀ (r : Reader) (rest : Bytes), Ready r (out.length - 9) 0 →
+        readFrame r (out ++ rest) =
+          (.ok (.headers ⟨out.length - 9, tHeaders, headersFlags p, p.streamID⟩ p.priority p.blockFragment),
+           { r with lastHeaderStream := if p.endHeaders then 0 else p.streamID }, rest) :=
+  Req.Lemmas.C05.H2.headers_parse_write p h
+
+example : WfHeaders ⟨3, [1, 2, 3], true, false, 2, ⟨5, true, 200⟩⟩ := by decide
+
+/-- **priority_parse_write** -/
+theorem priority_parse_write (sid : Nat) (p : Priority) (hs : ValidSid sid) (hp : WfPriority p) :
+    ∃ out, writePriority false sid p = .ok out ∧
+      ∀ (r : Reader) (rest : Bytes), Ready r 5 0 →
+        readFrame r (out ++ rest) = (.ok (.priority ⟨5, tPriority, 0, sid⟩ p), r, rest) :=
+  Req.Lemmas.C05.H2.priority_parse_write sid p hs hp
+
+/-- **rstStream_parse_write** -/
+theorem rstStream_parse_write (sid code : Nat) (hs : ValidSid sid) (hc : code < 4294967296) :
+    ∃ out, writeRSTStream false sid code = .ok out ∧
+      ∀ (r : Reader) (rest : Bytes), Ready r 4 0 →
+        readFrame r (out ++ rest) = (.ok (.rstStream ⟨4, tRSTStream, 0, sid⟩ code), r, rest) :=
+  Req.Lemmas.C05.H2.rstStream_parse_write sid code hs hc
+
+/-- **settings_parse_write** -/
+theorem settings_parse_write (ss : List (Nat × Nat)) (h : Req.H2.Frame.WfSettings ss) :
+    ∃ out, writeSettings ss = .ok out ∧
+      ∀ (r : Reader) (rest : Bytes), Ready r (6 * ss.length) 0 →
+        readFrame r (out ++ rest) = (.ok (.settings ⟨6 * ss.length, tSettings, 0, 0⟩ ss), r, rest) :=
+  Req.Lemmas.C05.H2.settings_parse_write ss h
+
+example : Req.H2.Frame.WfSettings [(4, 65535), (3, 100), (4, 4294967295)] := by decide
+/-- the excluded point: an INITIAL_WINDOW_SIZE above 2^31-1 is written but read back as a
+FLOW_CONTROL_ERROR connection error. -/
+example : (readFrame { maxReadSize := 16384 } [0, 0, 6, 4, 0, 0, 0, 0, 0, 0, 4, 128, 0, 0, 0]).1 =
+    .error (.conn errFlowControl) := by decide
+
+/-- **settingsAck_parse_write** -/
+theorem settingsAck_parse_write :
+    ∃ out, writeSettingsAck = .ok out ∧
+      ∀ (r : Reader) (rest : Bytes), Ready r 0 0 →
+        readFrame r (out ++ rest) = (.ok (.settings ⟨0, tSettings, flagAck, 0⟩ []), r, rest) :=
+  Req.Lemmas.C05.H2.settingsAck_parse_write
+
+/-- **pushPromise_parse_write** -/
+theorem pushPromise_parse_write (p : PushPromiseParam) (h : WfPushPromise p) :
+    ∃ out, writePushPromise false p = .ok out ∧
+      ∀ (r : Reader) (rest : Bytes), Ready r (out.length - 9) 0 →
+        readFrame r (out ++ rest) =
+          (.ok (.pushPromise ⟨out.length - 9, tPushPromise, pushPromiseFlags p, p.streamID⟩ p.promiseID
+            p.blockFragment), r, rest) :=
+  Req.Lemmas.C05.H2.pushPromise_parse_write p h
+
+example : WfPushPromise ⟨1, 2, [7, 8], true, 3⟩ := by decide
+
+/-- **ping_parse_write** -/
+theorem ping_parse_write (ack : Bool) (data : Bytes) (hd : data.length = 8) :
+    ∃ out, writePing ack data = .ok out ∧
+      ∀ (r : Reader) (rest : Bytes), Ready r 8 0 →
+        readFrame r (out ++ rest) = (.ok (.ping ⟨8, tPing, b2n ack flagAck, 0⟩ data), r, rest) :=
+  Req.Lemmas.C05.H2.ping_parse_write ack data hd
+
+/-- **goAway_parse_write**: the last-stream-id is masked to 31 bits by the writer. -/
+theorem goAway_parse_write (maxSid code : Nat) (debug : Bytes)
+    (hc : code < 4294967296) (hl : 8 + debug.length < two24) :
+    ∃ out, writeGoAway maxSid code debug = .ok out ∧
+      ∀ (r : Reader) (rest : Bytes), Ready r (8 + debug.length) 0 →
+        readFrame r (out ++ rest) =
+          (.ok (.goAway ⟨8 + debug.length, tGoAway, 0, 0⟩ (maxSid % two31) code debug), r, rest) :=
+  Req.Lemmas.C05.H2.goAway_parse_write maxSid code debug hc hl
+
+/-- **windowUpdate_parse_write** -/
+theorem windowUpdate_parse_write (sid incr : Nat) (hs : sid < two31)
+    (hi : 1 ≤ incr ∧ incr ≤ 2147483647) :
+    ∃ out, writeWindowUpdate false sid incr = .ok out ∧
+      ∀ (r : Reader) (rest : Bytes), Ready r 4 0 →
+        readFrame r (out ++ rest) = (.ok (.windowUpdate ⟨4, tWindowUpdate, 0, sid⟩ incr), r, rest) :=
+  Req.Lemmas.C05.H2.windowUpdate_parse_write sid incr hs hi
+
+/-- **continuation_parse_write**: read inside the header block of the same stream; END_HEADERS
+closes the block. -/
+theorem continuation_parse_write (sid : Nat) (endHeaders : Bool) (frag : Bytes)
+    (hs : ValidSid sid) (hl : frag.length < two24) :
+    ∃ out, writeContinuation false sid endHeaders frag = .ok out ∧
+      ∀ (r : Reader) (rest : Bytes), Ready r frag.length sid →
+        readFrame r (out ++ rest) =
+          (.ok (.continuation ⟨frag.length, tContinuation, b2n endHeaders flagEndHeaders, sid⟩ frag),
+           { r with lastHeaderStream := if endHeaders then 0 else sid }, rest) :=
+  Req.Lemmas.C05.H2.continuation_parse_write sid endHeaders frag hs hl
+
+/-- **rawFrame_parse_write**: extension frame types come back as `UnknownFrame` with the payload. -/
+theorem rawFrame_parse_write (t fl sid : Nat) (payload : Bytes)
+    (ht : 10 ≤ t ∧ t < 256) (hf : fl < 256) (hs : sid < two31) (hl : payload.length < two24) :
+    ∃ out, writeRawFrame t fl sid payload = .ok out ∧
+      ∀ (r : Reader) (rest : Bytes), Ready r payload.length 0 →
+        readFrame r (out ++ rest) = (.ok (.unknown ⟨payload.length, t, fl, sid⟩ payload), r, rest) :=
+  Req.Lemmas.C05.H2.rawFrame_parse_write t fl sid payload ht hf hs hl
+
+example : Ready { maxReadSize := 16384 } 8 0 := ⟨rfl, rfl, by decide⟩
+
+/-- **parse_error_classified**: a typed parser fails only with a connection error PROTOCOL_ERROR /
+FRAME_SIZE_ERROR / (SETTINGS only) FLOW_CONTROL_ERROR, a stream error PROTOCOL_ERROR on the frame's
+own non-zero stream (HEADERS, WINDOW_UPDATE only), or `io.ErrUnexpectedEOF` (the padded frame types
+DATA, HEADERS, PUSH_PROMISE only). -/
+theorem parse_error_classified (fh : FrameHeader) (p : Bytes) (e : RErr)
+    (h : parsePayload fh p = .error e) : ErrClass fh e :=
+  Req.Lemmas.C05.H2.parse_error_classified fh p e h
+
+/-- RFC 9113 §6: DATA, HEADERS, PRIORITY, PUSH_PROMISE and CONTINUATION on stream 0 are a
+connection error PROTOCOL_ERROR whatever the payload. -/
+theorem stream_zero_is_connection_error (fh : FrameHeader) (p : Bytes) (h0 : fh.streamID = 0)
+    (ht : fh.type = tData ∨ fh.type = tHeaders ∨ fh.type = tPriority ∨ fh.type = tPushPromise
+      ∨ fh.type = tContinuation) :
+    parsePayload fh p = .error (.conn errProtocol) :=
+  Req.Lemmas.C05.H2.stream_zero_is_connection_error fh p h0 ht
+
+/-- **order_automaton**: `checkFrameOrder`, run from the initial state over a sequence of frame
+headers (whose HEADERS/CONTINUATION frames are on non-zero streams, which the typed parsers
+guarantee), accepts the whole sequence iff every header block is contiguous on one stream:
+a CONTINUATION appears exactly after a HEADERS/CONTINUATION without END_HEADERS, and on the same
+stream (`Contiguous`, a state-free predicate on adjacent frames). -/
+theorem order_automaton (fs : List FrameHeader)
+    (hsid : ∀ fh ∈ fs, (fh.type = tHeaders ∨ fh.type = tContinuation) → fh.streamID ≠ 0) :
+    (runOrder 0 fs).isSome ↔ Contiguous none fs :=
+  Req.Lemmas.C05.H2.order_automaton fs hsid
+
+example : (runOrder 0 [⟨0, 1, 0, 3⟩, ⟨0, 9, 0, 3⟩, ⟨0, 9, 4, 3⟩, ⟨8, 6, 0, 0⟩]).isSome = true := by decide
+example : (runOrder 0 [⟨0, 1, 0, 3⟩, ⟨0, 9, 4, 5⟩]).isSome = false := by decide
+example : (runOrder 0 [⟨0, 1, 0, 3⟩, ⟨8, 6, 0, 0⟩]).isSome = false := by decide
+
+end h2
+
+/-! ## HTTP/3 frames and SETTINGS -/
+section h3
+open Req.H3.Varint Req.H3.Frame
+
+/-- **h3_frameHeader_roundtrip**: DATA and HEADERS frame headers (type and length varints) written by
+`Append` are returned by `ParseNext` with the same length, consuming exactly the header. -/
+theorem h3_frameHeader_roundtrip (l : Nat) (rest : Bytes) (fuel : Nat) (hl : l < 2 ^ 62) :
+    (∃ out, appendData l = some out ∧ parseNext (fuel + 1) (out ++ rest) = (.ok (.data l), rest)) ∧
+    (∃ out, appendHeaders l = some out ∧ parseNext (fuel + 1) (out ++ rest) = (.ok (.headers l), rest)) :=
+  Req.Lemmas.C05.H3.h3_frameHeader_roundtrip l rest fuel hl
+
+example : parseNext 5 [0x21, 2, 9, 9, 1, 0x40, 0x40] = (.ok (.headers 64), []) := by decide
+
+/-- **h3_reserved_rejected**: the frame types RFC 9114 §7.2.8 reserves are an error. -/
+theorem h3_reserved_rejected (t l : Nat) (xt xl rest : Bytes) (fuel : Nat)
+    (ht : t = 2 ∨ t = 6 ∨ t = 8 ∨ t = 9) (hxt : append t = some xt) (hxl : append l = some xl) :
+    (parseNext (fuel + 1) (xt ++ xl ++ rest)).1 = .error (.reserved t) :=
+  Req.Lemmas.C05.H3.h3_reserved_rejected t l xt xl rest fuel ht hxt hxl
+
+/-- **h3_unknown_skipped**: any other frame that is not DATA/HEADERS/SETTINGS (CANCEL_PUSH,
+PUSH_PROMISE, GOAWAY, MAX_PUSH_ID, greased and unknown types) is skipped with its payload. -/
+theorem h3_unknown_skipped (t : Nat) (xt xl payload rest : Bytes) (fuel : Nat)
+    (ht : t ≠ 0 ∧ t ≠ 1 ∧ t ≠ 4 ∧ isReservedType t = false)
+    (hxt : append t = some xt) (hxl : append payload.length = some xl) :
+    parseNext (fuel + 1) (xt ++ xl ++ payload ++ rest) = parseNext fuel rest :=
+  Req.Lemmas.C05.H3.h3_unknown_skipped t xt xl payload rest fuel ht hxt hxl
+
+/-- **h3settings_payload_roundtrip**: what `settingsFrame.Append` writes after the frame header is
+parsed back to the same settings — for EVERY iteration order of the `Other` map (the order is the
+order of the association list `s.other`, which is arbitrary). -/
+theorem h3settings_payload_roundtrip (s : Settings) (bs : Bytes) (h : Req.H3.Frame.WfSettings s)
+    (hp : settingsPayload s = some bs) : parseSettingsPayload bs = .ok s :=
+  Req.Lemmas.C05.H3.h3settings_payload_roundtrip s bs h hp
+
+/-- **h3settings_roundtrip** (wire level): `ParseNext` on what `settingsFrame.Append` wrote returns
+the same settings and leaves exactly the rest of the stream (frames up to the 8 KiB limit). -/
+theorem h3settings_roundtrip (s : Settings) (out rest : Bytes) (fuel : Nat)
+    (h : Req.H3.Frame.WfSettings s) (hw : appendSettings s = some out) (hsz : out.length ≤ 8192) :
+    parseNext (fuel + 1) (out ++ rest) = (.ok (.settings s), rest) :=
+  Req.Lemmas.C05.H3.h3settings_roundtrip s out rest fuel h hw hsz
+
+example : appendSettings ⟨true, true, [(6, 16384), (1, 0)]⟩ =
+    some [4, 11, 0x33, 1, 8, 1, 6, 0x80, 0, 0x40, 0, 1, 0] := by decide
+
+/-- **h3settings_dup_rejected**: a SETTINGS payload (any sequence of identifier/value varints) in
+which an identifier occurs twice is never accepted (RFC 9114 §7.2.4). -/
+theorem h3settings_dup_rejected (ps : List (Nat × Nat)) (bs : Bytes)
+    (h : appendPairs ps = some bs) (hdup : ¬ (ps.map (·.1)).Nodup) :
+    ∃ e, parseSettingsPayload bs = .error e :=
+  Req.Lemmas.C05.H3.h3settings_dup_rejected ps bs h hdup
+
+example : parseSettingsPayload [6, 1, 7, 2, 6, 1] = .error (.duplicateSetting 6) := by decide
+
+end h3
+
+/-! ## received HTTP/3 field sections -/
+section fields
+open Req.H3.Fields Req.H3.Rfc9114
+
+/-- **h3_fields_accept_iff**: `updateResponseFromHeaders` (with the repair of C05-2) accepts a
+decoded response field section iff it is well-formed per RFC 9114 §4.2 / §4.3 / §4.3.2 —
+`Rfc9114.ResponseSection`, a predicate written from the RFC text: pseudo-header fields first, each
+a three-digit `:status`, at least one; then lower-case token names, no control bytes in values, no
+connection-specific field, `te` only `trailers`, agreeing usable content-lengths. -/
+theorem h3_fields_accept_iff (fs : List Field) :
+    (∃ r, updateResponseFromHeaders fs = .ok r) ↔ ResponseSection fs :=
+  Req.Lemmas.C05.Fields.h3_fields_accept_iff fs
+
+/-- `:status: 200`, `content-length: 5`, `x-a: 1` is accepted … -/
+example : ∃ r, updateResponseFromHeaders
+    [⟨pStatus, [50, 48, 48]⟩, ⟨sContentLength, [53]⟩, ⟨[120, 45, 97], [49]⟩] = .ok r :=
+  ⟨⟨200, [50, 48, 48], 5, [([88, 45, 65], [[49]]), (sContentLengthCanon, [[53]])], none⟩, by decide⟩
+/-- … `:status: 20`, an upper-case name, `connection`, a late pseudo-header are not. -/
+example : updateResponseFromHeaders [⟨pStatus, [50, 48]⟩] = .error .invalidStatus := by decide
+example : updateResponseFromHeaders [⟨pStatus, [50, 48, 48]⟩, ⟨[88, 45, 97], [49]⟩]
+    = .error .notLowerCase := by decide
+example : updateResponseFromHeaders [⟨pStatus, [50, 48, 48]⟩, ⟨sConnection, [49]⟩]
+    = .error .connectionField := by decide
+example : updateResponseFromHeaders [⟨[120, 45, 97], [49]⟩, ⟨pStatus, [50, 48, 48]⟩]
+    = .error .pseudoAfterRegular := by decide
+
+/-- **h3_trailers_accept_iff**: `parseTrailers` (with the repair of C05-3) accepts a decoded trailer
+section iff it has no pseudo-header field (§4.3) and only valid regular fields (§4.2). -/
+theorem h3_trailers_accept_iff (fs : List Field) :
+    (∃ r, parseTrailers fs = .ok r) ↔ TrailerSection fs :=
+  Req.Lemmas.C05.Fields.h3_trailers_accept_iff fs
+
+example : parseTrailers [⟨[120, 45, 116], [49]⟩] = .ok [([88, 45, 84], [[49]])] := by decide
+example : parseTrailers [⟨pStatus, [50, 48, 48]⟩] = .error .pseudoInTrailer := by decide
+
+end fields
+
+/-! ## merged HTTP/2 header lists (`ReadMetaHeaders`) -/
+section h2meta
+open Req.H2.Meta Req.Lemmas.C05.Meta
+
+/-- **meta_fields_wellformed**: when the model of `readMetaFrame` returns a `MetaHeadersFrame`
+(whatever the HPACK decoder emitted, however the block was fragmented), its `Fields` fit
+`MaxHeaderListSize` (`hpack.HeaderField.Size` summed), every value is a valid field value, every
+regular name a valid lower-case wire name, no pseudo-header field follows a regular one, and
+`checkPseudos` holds (known names, no duplicates, not request and response mixed). -/
+theorem meta_fields_wellformed (maxList : Nat) (frags : List Frag) (closeErr : Bool)
+    (fields : List (Bytes × Bytes)) (trunc : Bool)
+    (h : readMeta maxList frags closeErr = .ok fields trunc) :
+    fieldsSize fields ≤ maxHeaderListSize maxList ∧ (∀ f ∈ fields, FieldOK f) ∧
+    (∀ a b, fields = a ++ b → ∀ f ∈ b, isPseudoName f.1 = true → ∀ g ∈ a, isPseudoName g.1 = true) ∧
+    checkPseudos fields = true :=
+  meta_ok_wellformed maxList frags closeErr fields trunc h
+
+example : readMeta 0 [⟨4, [.field sStatus [50, 48, 48]]⟩, ⟨9, [.field [120] [49]]⟩] false =
+    .ok [(sStatus, [50, 48, 48]), ([120], [49])] false := by decide
+/-- a header list one byte over the limit is truncated, not an error … -/
+example : readMeta 69 [⟨8, [.field sStatus [50, 48, 48], .field [120] [49]]⟩] false =
+    .ok [(sStatus, [50, 48, 48])] true := by decide
+/-- … and `:protocol` is a request pseudo-header (repair C05-1). -/
+example : readMeta 0 [⟨8, [.field sProtocol [119], .field sMethod [71]]⟩] false =
+    .ok [(sProtocol, [119]), (sMethod, [71])] false := by decide
+
+end h2meta
+
+end Req.Props.C05
